@@ -16,6 +16,13 @@ void CanSettingChanged::read(AbstractFile & is) {
     is.read(reinterpret_cast<char *>(&channel), sizeof(channel));
     is.read(reinterpret_cast<char *>(&changedType), sizeof(changedType));
     bitTimings.read(is);
+
+    /* the reserved trailer of the bit timings is written, so it has to be read back (all remaining data) */
+    bitTimings.reservedCanFdExtFrameData.clear();
+    if (objectSize > calculateObjectSize()) {
+        bitTimings.reservedCanFdExtFrameData.resize(objectSize - calculateObjectSize());
+        is.read(reinterpret_cast<char *>(bitTimings.reservedCanFdExtFrameData.data()), static_cast<std::streamsize>(bitTimings.reservedCanFdExtFrameData.size()));
+    }
 }
 
 void CanSettingChanged::write(AbstractFile & os) {
